@@ -25,7 +25,7 @@ RULE = ("cases = every table of 1..K rows (K=2 quick, 3 thorough) over 30 row ki
 ASSUMPTIONS = ["expected transactions are derived from the cell table by an independent Decimal-based reader following the property statement",
                "not judged: location when no location column is mapped or the cell is empty; ambiguous numerals (1e3, 1_0, +5); dates followed by trailing text; "
                "rows a delimiter kind cannot represent (newline or '|' under regex:, long rows under regex:)",
-               "UTF-8 files only"]
+               "UTF-8 files, with or without a byte-order mark"]
 
 D1, D2, D3 = dt.date(2025, 1, 15), dt.date(2025, 1, 16), dt.date(2025, 2, 3)
 
@@ -128,12 +128,12 @@ def observe(txns):
     return out
 
 
-def parse_real(rows_cells, L, delim, header, decimal, sign):
+def parse_real(rows_cells, L, delim, header, decimal, sign, bom=False):
     from tally.config_loader import resolve_source_format
     from tally.parsers import parse_generic_csv
     hdr = [c.upper() for c in L["cols"]] if header else None
     text = T.render_file(hdr, rows_cells, delim)
-    path = R.write_scratch("stmt.csv", text)
+    path = R.write_scratch("stmt.csv", ("\ufeff" + text) if bom else text)
     src = {"name": "SrcA", "file": "stmt.csv", "format": format_string(L, sign), "has_header": header, "decimal_separator": decimal}
     if L.get("template"):
         src["columns"] = {"description": L["template"]}
@@ -203,6 +203,15 @@ def check_case(case):
                         ok = len(got) == len(exp) and all(same_txn(g, e) for g, e in zip(got, exp))
                         if not ok:
                             viol.append({"kind": "transactions-differ-from-cells", "detail": {"config": cfg, "file_text": text, "expected": exp, "got": got}})
+                        if len(case) <= 2 and sign == "keep" and decimal == ".":
+                            # the same bytes behind a UTF-8 byte-order mark (what spreadsheet exports write) read the same
+                            evals += 1
+                            try:
+                                got_bom, _ = parse_real(rows, L, delim, header, decimal, sign, bom=True)
+                            except Exception as e:  # noqa
+                                got_bom = f"EXC {type(e).__name__}: {e}"
+                            if got_bom != got:
+                                viol.append({"kind": "byte-order-mark-changes-result", "detail": {"config": cfg, "file_text": text, "without_bom": got, "with_bom": got_bom}})
                         if len(case) > 1:
                             parts = []
                             bad = False
